@@ -340,7 +340,7 @@ class Ref:
         lim = int(kv["lim"])
         c = self.chans.get(ch) or self.create(ch)
         if lim == 0:
-            return "ok n=1 done=1 sizes=0 keys=-", []
+            return "ok pos=%s n=1 done=1 sizes=0 keys=-" % self.pos(c), []
         ks = self.sorted_entries(c, kv["asc"] == "1")
         if lim < 0 or not ks:
             sizes = [len(ks)]
@@ -350,7 +350,7 @@ class Ref:
         if len(sizes) > 64:
             sizes, done = sizes[:64], 0
             ks = ks[:64 * lim]
-        return "ok n=%d done=%d sizes=%s keys=%s" % (len(sizes), done, ",".join(map(str, sizes)),
+        return "ok pos=%s n=%d done=%d sizes=%s keys=%s" % (self.pos(c), len(sizes), done, ",".join(map(str, sizes)),
                                                   ",".join(hx(k) for k in ks) if ks else "-"), []
 
     def op_stream(self, ch, kv):
